@@ -16,7 +16,7 @@ from ..corpus import b64, unb64
 PROP = "C10"
 LEVEL = "exploration"
 COUNTS = {"quick": 1500, "thorough": 30000}
-WALL = {"quick": 170, "thorough": 3300}
+WALL = {"quick": 900, "thorough": 6000}
 RULE = (
     "scenario = 1-3 operations in one process over 1-5 pool documents: scan / scan-stdin / --list-files / fix / the API "
     "equivalents / plugins, extensions, version sub-commands, both return-code schemes, default rules or probe-only rules, "
